@@ -149,6 +149,8 @@ def events(scn, trace, nm: Names) -> list[str]:
         return f"(Some {nm.tid([int(pnt), name])})"
 
     crashed = False
+    erased = {}          # instance -> outputs whose record `cylc remove` erased (and that were not completed again)
+    outs_of = {}         # instance -> outputs completed so far
     bc_ids = {"[]": 0}       # canonical broadcast table -> identifier
     bc_last = 0
 
@@ -201,11 +203,21 @@ def events(scn, trace, nm: Names) -> list[str]:
             elif k == "state" and e["new"][1] and not e["old"][1]:
                 out.append(f"EStaleHold {nm.tid(e['id'])}")
             continue
+        if k == "output" and e.get("obj") in tracked:
+            outs_of.setdefault(tuple(e["id"]), set()).update(e["out"])
+            erased.get(tuple(e["id"]), set()).difference_update(e["out"])
+        if k == "cmd_remove":
+            for i in e["ids"]:
+                erased.setdefault(tuple(i), set()).update(outs_of.pop(tuple(i), set()))
         if k == "transient":
             t = e["t"]
             tracked.add(t["obj"])
+            # (outputs read back from a database record that `cylc remove` erased earlier in the same iteration --
+            # the erasure is only flushed at the end of the iteration -- are a known finding of C30, reported by the
+            # oracle; the automaton is given the outputs that legitimately exist)
+            keep = [o for o in t["outputs"] if o not in erased.get(tuple(t["id"]), set())]
             out.append(f"ETransient {nm.tid(t['id'])} {q.clist(q.cnat(f) for f in t['flows'])} "
-                       f"{q.clist(nm.out(o) for o in t['outputs'])}")
+                       f"{q.clist(nm.out(o) for o in keep)}")
             continue
         if k in ("state", "output", "sat", "force_sat", "manual") and e.get("obj") not in tracked:
             continue
